@@ -376,7 +376,7 @@ def oracle_rel(case, R):
     def absmeth(resp_):
         seen.append(resp_.shape)
         return abs(resp_).max(axis=0)
-    sh_f, r_f = run(peak=absmeth)
+    sh_f = run(peak=absmeth)[0]
     R.check(np.array_equal(sh_f, shs["abs"]), "peak_callable_differs", "")
     R.check(all(s == (h0.shape[0], H) for s in seen) and len(seen) == LF, "peak_callable_shape",
             f"shapes seen {seen[:3]} expected {(h0.shape[0], H)} x {LF}")
@@ -956,7 +956,7 @@ def vrs_cases(draw, edge=False):
             "g0": draw(st.sampled_from([4.0, 10.0, 25.0, 20.0])), "dg": draw(st.sampled_from([0.5, 2.0, 5.0, 1.25])),
             "gr": draw(st.sampled_from([1.05, 1.1, 2.0 ** 0.25])), "Q": draw(st.sampled_from([0.6, 1.0, 10.0, 25.0, 50.0, 7.3])),
             "linear": False if edge else draw(st.booleans()), "fn_idx": fn_idx, "getmiles": draw(st.booleans()),
-            "getresp": draw(st.booleans()), "badQ": (not edge) and draw(st.integers(0, 19)) == 0}
+            "getresp": draw(st.booleans()), "badQ": (not edge) and draw(st.sampled_from([False] * 24 + [True]))}
 
 
 REQUIRED_CLASSES = {
